@@ -426,6 +426,10 @@ func (e *esdt) createNewTokenIdentifier(caller []byte, ticker []byte) ([]byte, e
 			return newIdentifier, nil
 		}
 		newRandomAsBigInt.Add(newRandomAsBigInt, one)
+		if newRandomAsBigInt.BitLen() > 8*tickerRandomSequenceLength {
+			// wrap around, the random part of the identifier has exactly tickerRandomSequenceLength bytes
+			newRandomAsBigInt.SetUint64(0)
+		}
 	}
 
 	return nil, vm.ErrCouldNotCreateNewTokenIdentifier
